@@ -167,5 +167,9 @@ def describe(pid, cfg, w, ctx):
         rep['crate_actual'] = out.strip()
         got = out.strip()
         ma = rep.get('model_actual')
+        if got.startswith('UNREACHED'):
+            # the harness could not put the crate into the witness' state by its canonical path
+            ma = None
+            rep['note'] = 'start state not reached by the canonical construction; not confirmed either way'
         rep['confirmed_on_crate'] = (got.split(' ')[-1] == ma or got.endswith(' ' + ma) or got == ma) if ma else None
     return rep
